@@ -503,7 +503,7 @@ func build(tier string) []*venum.Check {
 	if thorough {
 		bl = 6
 	}
-	out = append(out, unsupported(), untouched(), shortStrings(2), boundaryStrings(bl), handshakeLengths())
+	out = append(out, unsupported(), untouched(), shortStrings(2), boundaryStrings(bl), handshakeLengths(thorough))
 	out = append(out, corpusMutations(thorough)...)
 	return out
 }
